@@ -60,6 +60,27 @@ def cls_both(prefix):
     return f
 
 
+def cls_c17(verdict, case):
+    """placement driver: tagged clauses "C17.<id> ..." and "diff place.<what> ..." joined by " ;; "; a recovered panic
+    is prefixed by the dispatcher ("panic place.submit ;; ..."): it is the clause C17.P1 when the driver names it, an
+    unexplained panic otherwise"""
+    body = verdict[4:] if verdict.startswith("inv ") else verdict
+    out, panic = [], False
+    for part in body.split(" ;; "):
+        w = part.split()
+        if not w:
+            continue
+        if w[0] == "diff":
+            out.append("diff-" + w[1])
+        elif w[0] == "panic":
+            panic = True
+        elif w[0].startswith("C17."):
+            out.append(w[0])
+    if panic and "C17.P1" not in out:
+        out.append("panic-unexplained")
+    return out or [cls_default(verdict, case)]
+
+
 # a difference between the stepped Core model and the implementation is reported by the properties whose theorems are
 # about that model
 DIFF_OWNERS = {"C03"}
@@ -257,6 +278,34 @@ PROPS = {
         level_note="trusted: Lean kernel; hand-written comparators tied by correspondence; floats enter as ranks; node iteration order is a monitor (no theorem)",
         technique="Lean 4 proof (strict weak orders, stable sort permutation invariance) + differential correspondence over permuted presentations",
         design_ref="DESIGN.md section 4 C19",
+    ),
+    "C17": dict(
+        module="YkProps.C17",
+        leancheck=["YkModel.Place", "YkModel.PlaceSpec", "YkProofs.Place", "YkProps.C17"],
+        runs=[dict(comp="place", quick=2400, thorough=64000)],
+        classify=cls_c17,
+        nontrivial=lambda line: '"op":"reset"' not in line,
+        rule="place: random configurations (queue tree of depth <=3 with managed leaf/parent queues, submit/admin ACL texts incl. wildcards, group-only, empty and invalid entries, child templates, now and then a configured queue named @recovery@; "
+             "0..4 placement rules provided/user/tag/fixed with parent rules up to depth 2, create flags, allow/deny filters (also Deny/DENY) with user/group lists or single-entry regular expressions, fixed values that are existing leaves/parents, "
+             "new names, root-prefixed names without dot, recovery queue spellings, values only the rule constructor refuses) loaded through scheduler.NewClusterContext "
+             "(configurations the validator rejects are counted and skipped); per configuration 6..19 operations: application submissions through ClusterContext.handleRMUpdateApplicationEvent (users incl. names with dots and '$', 1..3 groups, "
+             "requested queue: empty, existing leaf/parent in several capitalisations, unqualified, new below leaf/parent, recovery queue spellings, empty parts, invalid characters, 64/65 character parts; namespace/team tags; force-create tag), "
+             "MarkQueueForRemoval of managed queues (draining), configuration reloads with the same queues and a new rule list (UpdateRMSchedulerConfig -> UpdateRules), direct security.NewACL/CheckAccess cases. Every submission line carries the RM answer, the application's queue, the recursive CheckSubmitAccess answer of every queue for the user before the submission, "
+             "the regexp oracle and the whole queue tree afterwards; the driver compares all of it with the model and evaluates the property clauses on the implementation's answer. non-trivial = not a reset line; distinct = distinct protocol lines",
+        trusted=["regular expressions of filters are opaque: the harness reports regexp.MatchString for every (pattern, user/group name) pair of the case; whether an entry is a regexp (configs.SpecialRegExp) is modelled",
+                 "names are ASCII (strings.ToLower / EqualFold are modelled by ASCII case folding); a dotted queue name is modelled by the list of its parts",
+                 "ACL texts of managed queues are taken from the generated configuration (the queue DAO does not expose them); the recursive CheckSubmitAccess answer of every real queue is compared with the model for every submitting user",
+                 "child templates and the settings they control are compared as canonical text (max applications, properties, guaranteed and max resource of the queue DAO); application tags that set quotas on dynamic queues are not generated"],
+        assumptions=["one partition; the user/group resolver is not used (every request carries its groups)", "rule chains are those the rule constructors accept (Rule.wf: fixed values with valid parts, no parent below a qualified fixed rule, tag name set)"],
+        level_text="Lean 4 proofs over the executable model of NewACL/CheckAccess, the filters, the five rule types with parent rules, PlaceApplication and AddApplication/createQueue, for ALL queue trees, rule chains, ACLs, oracles and applications: "
+                   "an accepted application is in a leaf queue that was an active leaf if it existed; the queue is the one designated by the first rule in configured order whose result passes the checks (every earlier rule yields nothing or a queue that fails them); "
+                   "outside forced recovery some existing queue on the path admits the user through its submit or admin ACL; queues are created only for a rule with create enabled (or the recovery rule of a forced application), with valid name parts, below a non-leaf queue, "
+                   "a new leaf carrying that queue's child template; no matching rule means rejection with the no-rule reason; only a force-created application ends in the recovery queue; placement never panics on a tree with a root queue (every rule result starts with the part root); "
+                   "a filter is evaluated as configured whatever the capitalisation of its type. The one remaining exception — a forced application taken by a draining configured recovery queue — is stated in the theorem and shown by a witness (known finding C17.L3). "
+                   "Tie: differential correspondence of the model against the real ClusterContext plus the same clauses evaluated on the implementation's answers.",
+        level_note="trusted: Lean kernel; hand-written placement model tied by correspondence only; regexps as an oracle; ASCII names; ACL texts from the generated configuration",
+        technique="Lean 4 proof over an executable model of the placement path + differential correspondence on a real ClusterContext",
+        design_ref="DESIGN.md section 4 C17",
     ),
 }
 
